@@ -5,11 +5,74 @@ exit 1: at least one unlisted violation (VIOLATION property=CNN replay=<path> pe
 exit 2: harness error (import failure, nothing evaluated)
 """
 import argparse
+import json
 import os
+import signal
+import subprocess
 import sys
+import threading
+import time
 import traceback
 
 ROOT = os.path.dirname(os.path.dirname(os.path.abspath(__file__)))
+
+
+def supervise(cmd, env, args):
+    """Run the check proper in a child process (own session) and pass its output through. The child bounds every case and
+    the whole run by itself; the supervisor is the last line of defence against a run that stops responding altogether
+    (observed once: a deadlock inside multiprocessing while a defective tree was being examined). After budget + grace seconds
+    the child's process group is killed and the results it had recorded up to then are reported: violations found before
+    the stall still count (exit 1), otherwise the run is inconclusive like any other budget hit (exit 0)."""
+    budget = args.budget or float(os.environ.get("VERIF_BUDGET_S", "0")) or (240 if args.tier == "quick" else 3000)
+    limit = budget + float(os.environ.get("VERIF_SUPERVISOR_GRACE_S", 150 if args.tier == "quick" else 400))
+    child = subprocess.Popen(cmd, env=env, stdout=subprocess.PIPE, stderr=None, text=True, start_new_session=True)
+
+    def stop(*_):
+        try:
+            os.killpg(child.pid, signal.SIGKILL)
+        except OSError:
+            pass
+    for sig in (signal.SIGTERM, signal.SIGINT, signal.SIGHUP):
+        signal.signal(sig, lambda *_: (stop(), os._exit(130)))
+    seen = []
+
+    def pump():
+        for line in child.stdout:
+            seen.append(line)
+            sys.stdout.write(line)
+            sys.stdout.flush()
+    t = threading.Thread(target=pump, daemon=True)
+    t.start()
+    t0 = time.time()
+    try:
+        rc = child.wait(timeout=limit)
+        t.join(timeout=10)
+        return rc
+    except subprocess.TimeoutExpired:
+        stop()
+        child.wait()
+        t.join(timeout=5)
+    pid = args.property.upper()
+    out_root = os.environ.get("VERIF_OUT") or ROOT
+    ev_path = os.path.join(out_root, "evidence", f"{pid}.json")
+    print(f"supervisor: the check process stopped responding and was killed after {time.time() - t0:.0f}s; reporting what it had recorded")
+    if args.replay or not os.path.exists(ev_path):
+        print("harness error: nothing was recorded before the stall")
+        return 2
+    with open(ev_path) as fh:
+        ev = json.load(fh)
+    ev["coverage"]["budget_hit"] = True
+    ev["coverage"]["killed_by_supervisor_after_s"] = round(time.time() - t0, 1)
+    with open(ev_path, "w") as fh:
+        json.dump(ev, fh, indent=1)
+    sigs = ev["coverage"].get("violation_signatures", [])
+    already = "".join(seen)
+    for s_ in sigs:
+        line = f"VIOLATION property={pid} replay=" + os.path.join("replays", f"{pid}-{s_}.json")
+        if line not in already:
+            print(line)
+    print(f"{pid} {args.tier}: {ev['coverage'].get('evaluations', 0)} cases, {len(sigs)} violation(s) [run cut short by the supervisor]")
+    return 1 if sigs else 0
 
 
 def main(argv=None):
@@ -22,12 +85,11 @@ def main(argv=None):
     args = ap.parse_args(argv)
 
     repo = os.path.abspath(os.environ.get("VERIF_REPO", "/repo"))
-    if os.environ.get("PYTHONHASHSEED") != "0" or os.environ.get("VERIF_REPO") != repo \
-            or os.environ.get("PYTHONDONTWRITEBYTECODE") != "1":
+    if os.environ.get("VF_SUPERVISED") != "1":
         env = dict(os.environ, PYTHONHASHSEED="0", VERIF_REPO=repo, PYTHONDONTWRITEBYTECODE="1",
-                   ECAGENT_VERIF="1")
+                   ECAGENT_VERIF="1", VF_SUPERVISED="1")
         env["PYTHONPATH"] = os.pathsep.join([repo, ROOT] + [p for p in env.get("PYTHONPATH", "").split(os.pathsep) if p])
-        os.execve(sys.executable, [sys.executable, "-m", "vf.cli"] + (argv if argv is not None else sys.argv[1:]), env)
+        return supervise([sys.executable, "-m", "vf.cli"] + (argv if argv is not None else sys.argv[1:]), env, args)
 
     os.chdir(ROOT)
     sys.path[:0] = [repo, ROOT]
